@@ -22,21 +22,27 @@ git -C $WT apply $DST/patch.diff
 echo "tests with change: $tests_with"
 echo "demo with change rc=$rc_with ; clean rc=$rc_clean"
 results=""
-if git -C /repo apply --check $DST/patch.diff; then
-  git -C /repo apply $DST/patch.diff
+run_checks() {   # $1 = repository tree the checks run against
   for c in $CHECKS; do
-    out=$(cd /verif && timeout 1500 ./check $c --tier quick 2>&1 | tail -40)
-    rc=$?
+    out=$(cd /verif && VERIF_REPO=$1 timeout 1500 ./check $c --tier quick 2>&1 | tail -40)
     nviol=$(echo "$out" | grep -c "^VIOLATION")
     echo "check $c: violations=$nviol :: $(echo "$out" | tail -1)"
     echo "$out" | grep "^VIOLATION" | head -3 > $DST/check_$c.log
     echo "$out" | tail -1 >> $DST/check_$c.log
     results="$results $c:$nviol"
   done
+}
+if [ -n "${VIA_WT:-}" ]; then
+  # /repo is in use by a long run: the checks are pointed at the scratch worktree (which holds the change) instead
+  run_checks $WT
+elif git -C /repo apply --check $DST/patch.diff; then
+  git -C /repo apply $DST/patch.diff
+  run_checks /repo
   git -C /repo checkout -- .
 else
   echo "patch does not apply to /repo"
 fi
+git -C /verif checkout -- evidence coq/Model/Schemas.v coq/Model/UnitTable.v 2>/dev/null
 rm -f /verif/replays/*.json
 python3 - <<PY
 import json
